@@ -156,7 +156,6 @@ PROPS = {
         "assumptions": ["fixed-size data types (variable-size outputs are assembled by merge_chunks_vlen, covered by C01/C06 value comparison)"],
     },
     "C16": {
-        "claimed": False,
         "lean_props": ["ZarrsModel.Props.C16"],
         "harness": "c16",
         "rule": "(a) C01-style histories at concurrency targets {1,2,3,8,16} x chunk_concurrent_minimum {1,4}, every outcome compared with the sequential model; (b) 2-3 client threads issuing "
